@@ -289,7 +289,7 @@ def main():
         three = list(itertools.islice(small_exhaustive(3, (1,)), 0, None, 97))
         ex += three
     cases += ex
-    ngrid = 2500 if c.tier == "quick" else 40000
+    ngrid = 2500 if c.tier == "quick" else 20000
     g = [grid_case(rng, 12) for _ in range(ngrid)]
     g += [grid_case(rng, 40) for _ in range(ngrid // 25)]
     cases += g
@@ -361,7 +361,7 @@ def main():
         checker="mismatches list_eqb select_code",
         monitor=monitor,
         nontrivial=nontrivial,
-        shard=1500,
+        shard=3000 if c.tier == "thorough" else 1500,
         sample_of=lambda case, out: {"case": case_json(case), "implementation": " ".join(out[-8:])},
     )
     if stats["key_mismatch"]:
